@@ -57,7 +57,8 @@ fn find_refs(img: &[u8]) -> Vec<(usize, usize, bool)> {
 }
 
 fn block_size(ctx: &Ctx) -> usize {
-    [16usize, 64, 512, 4096][ctx.draw(F, 4, "block-size") as usize]
+    // (4 bytes: a torn word-sized write; the larger ones are sector / page sized)
+    [4usize, 16, 64, 512, 4096][ctx.draw(F, 5, "block-size") as usize]
 }
 
 /// Pick a position: half of the time inside one of the `hot` spans (structural
